@@ -13,7 +13,9 @@ import (
 	"github.com/avos-io/goat/gen/goatorepo"
 
 	"google.golang.org/grpc"
+	"google.golang.org/grpc/codes"
 	"google.golang.org/grpc/metadata"
+	"google.golang.org/grpc/status"
 )
 
 // c15APIUse: the concurrent uses the grpc.ClientStream / grpc.ServerStream contracts permit, made with
@@ -208,6 +210,60 @@ func c15APIUse(r *Run) {
 		<-served
 		r.Eval(fmt.Sprintf("apiuse/dialattach/%d", i), true)
 		r.Count("apiuse.dialattach")
+	}
+	// chained server interceptors, one of which answers on its own when the call's time is up while the
+	// rest of the chain is still running in a goroutine (the usual server-side timeout interceptor; grpc-go
+	// permits it): further calls on the connection overlap with the abandoned one
+	for i, n := 0, r.Scale(4, 30); i < n; i++ {
+		r.Progress("apiuse.asyncchain", i)
+		timeoutIc := func(ctx context.Context, req any, info *grpc.UnaryServerInfo, next grpc.UnaryHandler) (any, error) {
+			type res struct {
+				out any
+				err error
+			}
+			ch := make(chan res, 1)
+			go func() {
+				out, err := next(ctx, req)
+				ch <- res{out, err}
+			}()
+			select {
+			case x := <-ch:
+				return x.out, x.err
+			case <-time.After(3 * time.Millisecond):
+				return nil, status.Error(codes.DeadlineExceeded, "interceptor gave up")
+			}
+		}
+		passIc := func(ctx context.Context, req any, info *grpc.UnaryServerInfo, next grpc.UnaryHandler) (any, error) {
+			return next(ctx, req)
+		}
+		rig := NewRig(RigOpt{Serialise: i%2 == 0, SrvOpts: []goat.ServerOption{goat.ChainUnaryInterceptor(passIc, timeoutIc, passIc, passIc)}})
+		rig.Impl.SetUnary(func(ctx context.Context, req []byte) ([]byte, error) {
+			if len(req) > 0 && req[0] == 's' {
+				time.Sleep(8 * time.Millisecond) // slower than the interceptor's patience
+			}
+			return req, nil
+		})
+		var wg sync.WaitGroup
+		for k := 0; k < 6; k++ {
+			wg.Add(1)
+			go func(k int) {
+				defer wg.Done()
+				for j := 0; j < 8; j++ {
+					p := "f"
+					if (k+j)%3 == 0 {
+						p = "s"
+					}
+					ctx, cancel := context.WithTimeout(context.Background(), time.Second)
+					callUnary(ctx, rig.CC, []byte(fmt.Sprintf("%s-%d-%d", p, k, j)))
+					cancel()
+				}
+			}(k)
+		}
+		wg.Wait()
+		time.Sleep(12 * time.Millisecond) // the abandoned continuations finish
+		rig.Close()
+		r.Eval(fmt.Sprintf("apiuse/asyncchain/%d", i), true)
+		r.Count("apiuse.asyncchain")
 	}
 	// the HTTP transport under a client connection: several calls are writing when the peer dies (all
 	// their POSTs are cut off together), so several Writes of one connection fail concurrently while its
